@@ -21,7 +21,7 @@ pub fn bases(f: Family, fr: &FamRefs, n: usize) -> Vec<Vec<u8>> {
 
 pub fn refs_domain(f: Family, fr: &FamRefs, n: usize) -> Vec<Vec<u8>> {
 	// "%2E%2E": an ordinary segment that only DECODES to ".."
-	let mut segs: Vec<Vec<u8>> = ["", ".", "..", "g", "%2E%2E"].iter().map(|s| domains::b(s)).collect();
+	let mut segs: Vec<Vec<u8>> = ["", ".", "..", "g", "%2E%2E", "..."].iter().map(|s| domains::b(s)).collect();
 	if f == Family::Iri {
 		segs.push(domains::b("é"));
 	}
@@ -46,7 +46,7 @@ pub fn run(ctx: &Ctx) -> Report {
 		panic!("resolution model self-check failed: {e}");
 	}
 	let mut total = Report::new();
-	total.rule = "all pairs (base, reference): bases = s x {no authority, empty authority, h} x PATH(n) over {'' . .. a b:c} x {no query, '', q}; references = {no scheme, t} x {no authority, '', g} x PATH(m) over {'' . .. g %2E%2E (é)} x {no query, '', y} x {no fragment, s} (every RFC 5.2.2 branch), plus long paths and a sub-domain with '/', '?' and ':' inside queries and fragments on both sides; each through resolved / resolve / into_resolved and compared with a transcription of RFC 3986 5.2.2-5.2.4 + Errata 4547 + 5.3 (itself checked against the 42 examples of RFC 5.4); non-trivial = distinct pair".into();
+	total.rule = "all pairs (base, reference): bases = s x {no authority, empty authority, h} x PATH(n) over {'' . .. a b:c} x {no query, '', q}; references = {no scheme, t} x {no authority, '', g} x PATH(m) over {'' . .. g %2E%2E ... (é)} x {no query, '', y} x {no fragment, s} (every RFC 5.2.2 branch), plus long paths and a sub-domain with '/', '?' and ':' inside queries and fragments on both sides; each through resolved / resolve / into_resolved and compared with a transcription of RFC 3986 5.2.2-5.2.4 + Errata 4547 + 5.3 (itself checked against the 42 examples of RFC 5.4); non-trivial = distinct pair".into();
 	let (bn, rn) = ctx.pick((2usize, 3usize), (3usize, 4usize));
 	for f in Family::active() {
 		let fr = FamRefs::new(refs, f);
